@@ -1,3 +1,388 @@
+import PB.Model.Managed
 import PB.Drv.Loop
-/- Driver stub for C06 (model not built yet): every op is rejected. -/
-def main : IO Unit := PB.Drv.lineLoop (fun _ => "bad-op")
+/- Driver for C06: scenario ops (one per line) interpreted on the model of managed execution.
+   The same lines are executed on the real code by an isolated child process of hx-c06. -/
+namespace PB.Drv.C06
+open PB.Managed
+
+structure DSt where
+  st : St := { cap := 1 <<< 14 }   -- managed state of the subject module (A, or api)
+  mods : List Mod := []
+  ids : List (String × Bool × Bool) := []  -- item id, held?, onstop?  (index = position in st.items)
+  taken : Nat := 0                 -- reports already printed
+  started : Bool := false
+  startOK : Bool := false
+  down : Bool := false
+  apiMode : Bool := false
+  mgmt : Bool := false
+  deriving Inhabited
+
+def pvOf : String → Option PCls
+  | "nil" => some .nil
+  | "err" => some .err
+  | "str" => some .str
+  | "rtidx" => some .rt
+  | "rtnil" => some .rt
+  | "rtdiv" => some .rt
+  | "rtmap" => some .rt
+  | "struct" => some .strct
+  | "int" => some .other
+  | "ptrerr" => some .err
+  | "nilptr" => some .other
+  | "evil" => some .err
+  | "abort" => some .err
+  | "slice" => some .other
+  | _ => none
+
+def outcomeOf (s : String) : Option Outcome :=
+  match s with
+  | "ok" => some .ok
+  | "err" => some .err
+  | "canceled" => some .canceled
+  | "restart" => some .restart
+  | _ => if s.startsWith "p:" then (pvOf (s.drop 2).toString).map Outcome.panic else none
+
+def outcomesOf (s : String) : Option (List Outcome) :=
+  let ps := s.splitOn ","
+  let os := ps.filterMap outcomeOf
+  if os.length == ps.length && !os.isEmpty then some os else none
+
+/-- Lifecycle routine token: `-` no routine, `ok`, `err`, `p:<pv>`. -/
+def ctrlTok (s : String) : Option (Option Outcome) :=
+  if s == "-" then some none
+  else match outcomeOf s with
+    | some .canceled => none
+    | some .restart => none
+    | some o => some (some o)
+    | none => none
+
+def clsStr : PCls → String
+  | .nil => "nil" | .nilerr => "nilerr" | .err => "err" | .str => "str" | .rt => "rt" | .strct => "struct" | .other => "other"
+
+def typStr : TType → String
+  | .worker => "worker" | .task => "task" | .microtask => "microtask" | .ctrl => "module-control"
+  | .custom => "custom" | .none => "-"
+
+def repStr (r : Report) : String :=
+  match r.sev with
+  | .panic => s!"panic/{typStr r.typ}/{clsStr r.val}{if r.stack then "" else "!nostack"}"
+  | .error => s!"error/{typStr r.typ}/-"
+
+def lastStr : Option Report → String
+  | none => "-"
+  | some r => repStr r
+
+def repsStr (rs : List Report) : String :=
+  if rs.isEmpty then "-" else "+".intercalate (rs.map repStr)
+
+def insertSorted (s : String) : List String → List String
+  | [] => [s]
+  | x :: xs => if s ≤ x then s :: x :: xs else x :: insertSorted s xs
+
+def sortedRepsStr (rs : List Report) : String :=
+  if rs.isEmpty then "-" else "+".intercalate ((rs.map repStr).foldr insertSorted [])
+
+def cntStr (s : St) : String :=
+  s!"{s.w},{s.t},{s.m},{s.g},{if s.c then 1 else 0}"
+
+def retStr (cur : Outcome) : Option Ret → String
+  | none => "noreturn"
+  | some .nil => "nil"
+  | some .err => "err:plain"
+  | some .canceled => "err:canceled"
+  | some .restart => "err:restart"
+  | some (.panicErr r) =>
+    let same := match cur with
+      | .panic v => r.val == recovered v
+      | _ => false
+    s!"panic:{clsStr r.val}:val={if same then "same" else "diff"}:stack={if r.stack then "yes" else "no"}"
+
+def ctrlRetStr : Option CtrlRet → String
+  | none => "nil"
+  | some .nil => "nil"
+  | some .err => "err:plain"
+  | some .panicMsg => "err:panic"
+
+def statusName : Nat → String
+  | 0 => "dead" | 1 => "preparing" | 2 => "offline" | 3 => "stopping" | 4 => "starting" | 5 => "online" | _ => "unknown"
+
+def tokFails : Option Outcome → Bool
+  | none => false
+  | some .ok => false
+  | _ => true
+
+def statusesStr (ms : List Mod) : String :=
+  ",".intercalate (ms.map fun m => if tokFails m.prep || tokFails m.start then "x" else statusName m.status)
+
+def kindOf : String → Option Kind
+  | "runworker" => some .runWorker
+  | "startworker" => some .startWorker
+  | "svc" => some .svc
+  | "task-queue" | "task-prio" | "task-asap" | "task-sched" | "task-repeat" => some .task
+  | "mt-run-high" | "mt-run-med" | "mt-run-low" => some (.mt true)
+  | "mt-start-high" | "mt-start-med" | "mt-start-low" => some (.mt false)
+  | "hook-trigger" | "hook-inject" => some .hook
+  | "api-action" | "api-data" | "api-struct" | "api-record" | "api-handlerfunc" | "api-rawhandler" | "api-rawfunc" =>
+    some (.api false)
+  | _ => none
+
+def rawHandlerKind (k : String) : Bool := k == "api-handlerfunc" || k == "api-rawhandler" || k == "api-rawfunc"
+
+def isApiKind : Kind → Bool
+  | .api _ => true
+  | _ => false
+
+def validName (n : String) : Bool :=
+  match n.toList with
+  | c :: cs => c.isUpper && cs.all Char.isAlphanum
+  | [] => false
+
+def findIdx (ids : List (String × Bool × Bool)) (id : String) : Option Nat :=
+  ids.findIdx? (·.1 == id)
+
+def subjectName (d : DSt) : String := if d.apiMode then "api" else "A"
+
+def subjectOnline (d : DSt) : Bool :=
+  if d.apiMode then d.startOK else statusOf d.mods "A" == 5
+
+/-- A task item is in flight (queued, executing or held): the queue handler runs one task at a time. -/
+def taskBusy (d : DSt) : Bool :=
+  d.st.items.any fun it => it.kind == .task && !it.done
+
+/-- Reports delivered since the last drain. -/
+def drain (d : DSt) : DSt × List Report :=
+  ({ d with taken := d.st.feed.length }, d.st.feed.drop d.taken)
+
+/-- Lifecycle reports (of any module) go through the same channel and `lastReportedError`. -/
+def pushReports (d : DSt) (rs : List Report) : DSt :=
+  { d with st := rs.foldl St.report d.st }
+
+def setHeld (ids : List (String × Bool × Bool)) (i : Nat) (h : Bool) : List (String × Bool × Bool) :=
+  match ids[i]? with
+  | some (id, _, os) => ids.set i (id, h, os)
+  | none => ids
+
+/-- The subject module stops: stop program on its own managed state; items waiting for the module
+    context (`onstop`) end when it is cancelled. -/
+def stopSubject (d : DSt) (fn : Option Outcome) : DSt × (CtrlRet × List Report) :=
+  let n := d.st.items.length
+  let it : Item := { kind := .stop, outs := (match fn with | some o => [o] | none => []), hasFn := fn.isSome }
+  let s0 := { d.st with items := d.st.items ++ [it] }
+  let before := s0.feed.length
+  let s1 := runHeld 16 s0 n
+  -- release every held item (all of them wait for ctx.Done())
+  let s2 := (List.range n).foldl (fun s i => finishItem s i) s1
+  let s3 := (List.range n).foldl (fun s i => runHeld 16 s i) s2
+  let s4 := runHeld 16 (finishItem s3 n) n
+  let cret := (s4.items[n]?.bind (·.cret)).getD .nil
+  -- the stop item is not a scenario item: remove it again
+  let s5 := { s4 with items := s4.items.take n, stopFlag := false, ctxDone := false, feed := s4.feed.take before }
+  ({ d with st := s5, ids := d.ids.map fun (id, _, os) => (id, false, os) }, (cret, s4.feed.drop before))
+
+/-- A stop pass over all modules; the subject's own stop runs on the scenario state. -/
+def stopPass (d : DSt) (keep : Mod → Bool) : DSt × List CtrlRet × List Report :=
+  -- run rounds with a pure stop function, then redo the subject's stop on the real state
+  let subj := subjectName d
+  let stopsSubject := d.mods.any fun m => m.name == subj && !keep m && m.status == 5
+  let (d1, subjRes) :=
+    if stopsSubject then
+      match d.mods.find? (·.name == subj) with
+      | some m => let (d', r) := stopSubject d m.stop; (d', some r)
+      | none => (d, none)
+    else (d, none)
+  let stopOf := fun (m : Mod) =>
+    if m.name == subj then (match subjRes with | some r => r | none => runCtrl .stop m.stop) else runCtrl .stop m.stop
+  let out := passRounds (d.mods.length + 1) false (stopRound keep stopOf) { mods := d1.mods }
+  -- reports of the subject's stop are already in the feed; push the others in order
+  let d2 := { d1 with mods := out.mods }
+  (d2, out.rets, out.reps)
+
+/-- Run item `i` through all of its runs (free-running burst item). -/
+def runThrough (fuel : Nat) (s : St) (i : Nat) : St :=
+  match fuel with
+  | 0 => s
+  | fuel + 1 =>
+    let s1 := runHeld 16 s i
+    match s1.items[i]? with
+    | some it => if it.inFn then runThrough fuel (finishItem s1 i) i else s1
+    | none => s1
+
+def burstTok (d : DSt) (a : String) : Option Item :=
+  match a.splitOn "=" with
+  | [k, os] =>
+    match kindOf k, outcomesOf os with
+    | some kd, some outs =>
+      if isApiKind kd != d.apiMode || (kd == .hook && statusOf d.mods "B" != 5) || (kd == .task && taskBusy d) then none
+      else some { kind := kd, outs := outs }
+    | _, _ => none
+  | _ => none
+
+def burst (d : DSt) (args : List String) : DSt × String :=
+    if !d.startOK || !subjectOnline d then (d, "bad-op") else
+    let toks := args.map (burstTok d)
+    if toks.any Option.isNone then (d, "bad-op") else
+    let its := toks.filterMap id
+    let n0 := d.st.items.length
+    let s1 := its.foldl (fun s it => match step s (.spawn it) with | some s' => s' | none => s) d.st
+    let idx := List.range' n0 its.length
+    let s2 := idx.foldl (fun s i => runThrough 64 s i) s1
+    let res := idx.map fun i => match s2.items[i]? with
+      | some it =>
+        (match it.kind with
+         | .runWorker => retStr it.cur it.ret
+         | .mt true => retStr it.cur it.ret
+         | .api _ => toString it.http
+         | _ => "-")
+      | none => "?"
+    let runs := idx.map fun i => match s2.items[i]? with
+      | some it => toString it.runs
+      | none => "?"
+    let d1 := { d with st := s2, ids := d.ids ++ idx.map fun i => (s!"b{i}", false, false) }
+    let (d2, reps) := drain d1
+    (d2, s!"burst res={",".intercalate res} runs={",".intercalate runs} reps={sortedRepsStr reps} cnt={cntStr s2}")
+
+def handle (d : DSt) (line : String) : DSt × String :=
+  let f := PB.Drv.words line
+  if d.down then (d, "bad-op") else
+  match f with
+  | "mod" :: name :: p :: s :: t :: rest =>
+    if rest.length > 1 || d.started || d.apiMode || !validName name || d.mods.any (·.name == name) then (d, "bad-op") else
+    match ctrlTok p, ctrlTok s, ctrlTok t with
+    | some p', some s', some t' =>
+      let deps := match rest with
+        | [ds] => ds.splitOn ","
+        | _ => []
+      if deps.all (fun n => d.mods.any (·.name == n)) then
+        ({ d with mods := d.mods ++ [{ name := name, prep := p', start := s', stop := t', deps := deps }] }, "ok")
+      else (d, "bad-op")
+    | _, _, _ => (d, "bad-op")
+  | ["api"] =>
+    if d.started || d.apiMode || !d.mods.isEmpty then (d, "bad-op") else ({ d with apiMode := true }, "ok")
+  | "mgmt" :: a :: as =>
+    let args := (a :: as).map (·.splitOn "=")
+    let ok := args.all fun kv => match kv with
+      | [n, v] => d.mods.any (·.name == n) && (v == "on" || v == "off")
+      | _ => false
+    if d.started || d.mgmt || d.apiMode || !ok then (d, "bad-op") else
+    let on := args.filterMap fun kv => match kv with
+      | [n, "on"] => some n
+      | _ => none
+    ({ d with mgmt := true, mods := d.mods.map fun m => { m with enabled := on.contains m.name } }, "ok")
+  | [op, name] =>
+    if op == "enable" || op == "disable" then
+      if d.mgmt && d.mods.any (·.name == name) then
+        ({ d with mods := d.mods.map fun m => if m.name == name then { m with enabled := op == "enable" } else m }, "ok")
+      else (d, "bad-op")
+    else if op == "finish" then
+      match findIdx d.ids name with
+      | none => (d, "bad-op")
+      | some i =>
+        match d.ids[i]?, d.st.items[i]? with
+        | some (_, true, _), some _ =>
+          let s' := finishItem d.st i
+          let d1 := { d with st := s' }
+          let (d2, reps) := drain d1
+          match s'.items[i]? with
+          | none => (d, "bad-op")
+          | some it =>
+            let blocking := match it.kind with
+              | .runWorker => true
+              | .mt b => b
+              | _ => false
+            let ret := if blocking then retStr it.cur it.ret else "-"
+            let http := if isApiKind it.kind then toString it.http else "-"
+            let next := if it.kind == .svc then (if it.inFn then "reentered" else if it.done then "done" else "timeout") else "-"
+            let exec := if it.kind == .task then toString it.executing else "-"
+            ({ d2 with ids := setHeld d2.ids i it.inFn },
+             s!"finish ret={ret} http={http} next={next} exec={exec} sync=ok reps={repsStr reps} last={lastStr s'.last} cnt={cntStr s'}")
+        | _, _ => (d, "bad-op")
+    else if op == "burst" then burst d [name]
+    else (d, "bad-op")
+  | ["start"] =>
+    if d.started then (d, "bad-op") else
+    if d.apiMode then ({ d with started := true, startOK := true }, "start ret=nil reps=-") else
+    let d0 := { d with started := true }
+    let n := d.mods.length + 1
+    let preps := passRounds n true prepRound { mods := d0.mods }
+    match passFirstErr preps.rets with
+    | some e =>
+      let d1 := pushReports { d0 with mods := preps.mods } preps.reps
+      let (d2, reps) := drain d1
+      (d2, s!"start ret={ctrlRetStr (some e)} reps={repsStr reps}")
+    | none =>
+      let needed := neededDeps n preps.mods []
+      let starts := passRounds n true (startRound d0.mgmt needed) { mods := preps.mods }
+      let d1 := pushReports { d0 with mods := starts.mods } (preps.reps ++ starts.reps)
+      let (d2, reps) := drain d1
+      let res := startResult preps.rets starts.rets
+      ({ d2 with startOK := res.isNone }, s!"start ret={ctrlRetStr res} reps={repsStr reps}")
+  | ["manage"] =>
+    if !d.started || !d.mgmt then (d, "bad-op") else
+    let n := d.mods.length + 1
+    let needed := neededDeps n d.mods []
+    let (d1, srets, sreps) := stopPass d (fun m => wanted true needed m)
+    let starts := passRounds n true (startRound true needed) { mods := d1.mods }
+    -- reports of the subject's own stop are already in the feed
+    let d2 := pushReports { d1 with mods := starts.mods } (sreps ++ starts.reps)
+    let (d3, reps) := drain d2
+    (d3, s!"manage ret={ctrlRetStr (manageResult srets starts.rets)} reps={sortedRepsStr reps} st={statusesStr d3.mods}")
+  | ["shutdown"] =>
+    if !d.started then (d, "bad-op") else
+    -- work that does not wait for the module context would keep Shutdown waiting for the stop timeout
+    if d.ids.any (fun (_, held, os) => held && !os) then ({ d with down := true }, "shutdown-with-held-work") else
+    if d.apiMode then
+      let (d1, _) := stopSubject d none
+      let (d2, reps) := drain d1
+      ({ d2 with down := true }, s!"shutdown ret=nil reps={sortedRepsStr reps} slow=no st=")
+    else
+    let (d1, srets, sreps) := stopPass d (fun _ => false)
+    let d2 := pushReports d1 sreps
+    let (d3, reps) := drain d2
+    ({ d3 with down := true },
+     s!"shutdown ret={ctrlRetStr (shutdownResult srets)} reps={sortedRepsStr reps} slow=no st={statusesStr d3.mods}")
+  | "burst" :: a :: as => burst d (a :: as)
+  | ["status"] => (d, s!"cnt={cntStr d.st} last={lastStr d.st.last}")
+  | ["settle"] => (d, s!"cnt={cntStr d.st} others=clean")
+  | "spawn" :: id :: kind :: outs :: rest =>
+    let flag := match rest with
+      | [] => some ""
+      | [fl] => if fl == "onstop" || fl == "afterwrite" then some fl else none
+      | _ => none
+    match flag, kindOf kind, outcomesOf outs with
+    | some fl, some k, some os =>
+      let api := isApiKind k
+      let bad := !d.startOK || (findIdx d.ids id).isSome || api != d.apiMode || !subjectOnline d
+        || (fl == "afterwrite" && !rawHandlerKind kind) || (fl == "onstop" && api)
+        || (k == .hook && statusOf d.mods "B" != 5)
+        || (k == .task && taskBusy d)
+      if bad then (d, "bad-op") else
+      let k' := if api then Kind.api (fl == "afterwrite") else k
+      let i := d.st.items.length
+      match step d.st (.spawn { kind := k', outs := os }) with
+      | none => (d, "bad-op")
+      | some s1 =>
+        let s2 := runHeld 16 s1 i
+        let held := match s2.items[i]? with
+          | some it => it.inFn
+          | none => false
+        ({ d with st := s2, ids := d.ids ++ [(id, held, fl == "onstop")] },
+         s!"spawn {if held then "ok" else "noentry"} cnt={cntStr s2}")
+    | _, _, _ => (d, "bad-op")
+  | ["requeue", id, kind, outs] =>
+    match findIdx d.ids id, kindOf kind, outcomesOf outs with
+    | some i, some .task, some os =>
+      if !d.startOK || !subjectOnline d || taskBusy d then (d, "bad-op") else
+      match step d.st (.queue i os) with
+      | none => (d, "bad-op")
+      | some s1 =>
+        let s2 := runHeld 16 s1 i
+        let held := match s2.items[i]? with
+          | some it => it.inFn
+          | none => false
+        ({ d with st := s2, ids := setHeld d.ids i held }, s!"requeue {if held then "ok" else "noentry"} cnt={cntStr s2}")
+    | _, _, _ => (d, "bad-op")
+  | _ => (d, "bad-op")
+
+end PB.Drv.C06
+
+def main : IO Unit := PB.Drv.runState (default : PB.Drv.C06.DSt) PB.Drv.C06.handle
